@@ -463,6 +463,9 @@ func (d *kmDriver) mkChurpCreate(what string) *GenTx {
 	if int(req.Threshold)+int(req.ExtraShares)+1 > nn {
 		req.ExtraShares = 0
 	}
+	if g.rng.IntN(25) == 0 {
+		req.HandoffInterval = []beacon.EpochTime{1 << 63, beacon.EpochInvalid - 1, beacon.EpochInvalid}[g.rng.IntN(3)]
+	}
 	serial := uint32(0)
 	signer := sc.KMOwner.Account
 	intent := "valid"
@@ -538,9 +541,16 @@ func (d *kmDriver) mkChurpUpdate(what string) *GenTx {
 	switch g.rng.IntN(4) {
 	case 0:
 		e := uint8(g.rng.IntN(2))
+		if g.rng.IntN(12) == 0 {
+			e = uint8(2 + g.rng.IntN(254)) // more shares than there are nodes: no handoff can complete
+		}
 		req.ExtraShares = &e
 	case 1:
 		iv := beacon.EpochTime([]int{0, 1, 2, 3}[g.rng.IntN(4)])
+		if g.rng.IntN(10) == 0 {
+			// Extreme intervals: the computation of the next handoff epoch must not overflow into a halt.
+			iv = []beacon.EpochTime{1 << 63, beacon.EpochInvalid - 1, beacon.EpochInvalid, beacon.EpochInvalid - beacon.EpochTime(d.epoch) - 1}[g.rng.IntN(4)]
+		}
 		req.HandoffInterval = &iv
 		note = fmt.Sprintf("km-churp-update interval=%d", iv)
 	default:
@@ -759,6 +769,9 @@ func (d *kmDriver) txs() []*GenTx {
 			gt.Note += " km-init-response"
 			emit(gt)
 		}
+	}
+	if d.snap.Suspended && rng.IntN(4) != 0 {
+		return out // while the runtime is suspended every key manager transaction is refused: mostly wait
 	}
 	if d.snap.Status != nil && len(d.committee()) > 0 {
 		if e := d.snap.Ephemeral; (e == nil || e.Secret.Epoch != d.epoch+1) && rng.IntN(2) == 0 {
